@@ -7,10 +7,9 @@ Model: `DicomModel/Model/Encap.lean` (repaired behaviour of DESIGN §7 #3, #4, #
 All statements are over arbitrary byte lists / frame lists / frame counts (no size bound other than
 the `u32` limits the code itself has, which are explicit hypotheses).
 
-What the real code does *not* satisfy (kept as proved negations below and as known findings of the
-correspondence run): the uncompressed writer copies an odd-sized frame into an odd-length fragment
-(`uncompressed_odd_fragment`), and a JPEG stream of odd length is not padded (codec output, seen
-only in the run).
+The default encoder pads an odd-length encoded frame with one NUL (repair of the findings
+`odd-fragment-uncompressed` / `odd-fragment-jpeg-baseline` of an earlier round), so parity holds for
+every writer: `transcode_fragments_even`.
 -/
 namespace Dicom.Encap
 
@@ -321,7 +320,7 @@ the fragments of all earlier frames; there is one fragment per frame, the one th
 theorem bot_is_prefix_sums {enc : Nat → Option Bytes} {attr : Option Nat} {ops : List (Nat × Nat)}
     {e : Encapsulated} (h : transcodeEncap enc attr ops = some e) :
     e.table.length = attr.getD 1 ∧ e.fragments.length = attr.getD 1 ∧
-    (∀ i, i < attr.getD 1 → enc i = e.fragments[i]?) ∧
+    (∀ i, i < attr.getD 1 → (enc i).map padEven = e.fragments[i]?) ∧
     ∀ i, i < attr.getD 1 →
       e.table[i]? = some (((e.fragments.take i).map fun f => f.length + 8).sum) := by
   unfold transcodeEncap encodeDefault at h
@@ -343,6 +342,37 @@ theorem bot_is_prefix_sums {enc : Nat → Option Bytes} {attr : Option Nat} {ops
       · intro i hi
         rw [h2, prefixOffsets_get 0 _ i (by simp [h1, hi])]
         simp [← List.map_take, frameLen, Function.comp_def]
+
+/-- **fragments_even** (transcoding) — whatever the per-frame encoder writes (an odd-sized
+uncompressed frame, an odd-length JPEG or deflate stream), every fragment of the transcoded object
+has even length, and it is the encoder's output plus at most one NUL. -/
+theorem transcode_fragments_even {enc : Nat → Option Bytes} {attr : Option Nat} {ops : List (Nat × Nat)}
+    {e : Encapsulated} (h : transcodeEncap enc attr ops = some e) :
+    (∀ f ∈ e.fragments, f.length % 2 = 0) ∧
+    ∀ i, i < attr.getD 1 → ∃ fd k, enc i = some fd ∧ k ≤ 1 ∧
+      e.fragments[i]? = some (fd ++ List.replicate k 0) := by
+  obtain ⟨_, h2, h3, _⟩ := bot_is_prefix_sums h
+  constructor
+  · intro f hf
+    obtain ⟨i, hi, rfl⟩ := List.getElem_of_mem hf
+    have := h3 i (by omega)
+    rw [List.getElem?_eq_getElem hi] at this
+    cases he : enc i with
+    | none => simp [he] at this
+    | some fd =>
+      simp only [he, Option.map_some, Option.some.injEq] at this
+      rw [← this]; exact padEven_even fd
+  · intro i hi
+    have := h3 i hi
+    cases he : enc i with
+    | none =>
+      simp only [he, Option.map_none] at this
+      have hlt : i < e.fragments.length := by omega
+      rw [List.getElem?_eq_getElem hlt] at this
+      cases this
+    | some fd =>
+      obtain ⟨k, hk, hp⟩ := padEven_spec fd
+      exact ⟨fd, k, rfl, hk, by rw [← this, he]; simp [hp]⟩
 
 /-- the first entry is 0 whenever there is a frame -/
 theorem bot_first_zero {enc : Nat → Option Bytes} {attr : Option Nat} {ops : List (Nat × Nat)}
@@ -501,16 +531,12 @@ theorem frame_data_after_transcode {enc : Nat → Option Bytes} {n : Nat} {ops :
   unfold framePixelData
   simp [h1, h2]
 
-/-! ### what the real writers do not satisfy -/
+/-! ### the uncompressed writer -/
 
-/-- a 3×3 8-bit frame is copied into a 9-byte fragment by the uncompressed writer:
-"every fragment has even length" is false for that writer (known finding `odd-fragment-uncompressed`). -/
-theorem uncompressed_odd_fragment :
-    ∃ e, transcodeEncap
-        (uncompressedFrame ⟨3, 3, 1, 8, some 1, [1, 2, 3, 4, 5, 6, 7, 8, 9]⟩) (some 1) [] = some e ∧
-      ∃ f ∈ e.fragments, f.length % 2 = 1 := by
-  refine ⟨⟨[0], [[1, 2, 3, 4, 5, 6, 7, 8, 9]], 1, some 9⟩, by decide, ?_⟩
-  exact ⟨_, List.mem_singleton.mpr rfl, by decide⟩
+/-- a 3×3 8-bit frame (9 bytes) becomes a 10-byte fragment: frame plus one NUL -/
+theorem uncompressed_odd_frame_padded :
+    transcodeEncap (uncompressedFrame ⟨3, 3, 1, 8, some 1, [1, 2, 3, 4, 5, 6, 7, 8, 9]⟩) (some 1) []
+      = some ⟨[0], [[1, 2, 3, 4, 5, 6, 7, 8, 9, 0]], 1, some 10⟩ := by decide
 
 /-! ### non-vacuity -/
 
